@@ -22,7 +22,7 @@ class C06(ModelCheck):
     def gen_program(self, rng, tier):
         g = Gen(rng, weights={'split': 4, 'roll': 2, 'group_by': 2, 'time_split': 0, 'progress': 0, 'tee_map': 1}, max_nest=2,
                 small=(tier == 'quick'))
-        key = rng.choice(['rv_mod3', 'rv_div2big', 'rv_tup', 'rn_div3', 'rk_big', 'rk_tup', 'rk', 'rv_mixed', 'rv_zero', 'rv_nest', 'rv_np', 'rv_npf', 'rv_nan', 'rv_nan_fresh', 'rv_obj', 'cnt3'])
+        key = rng.choice(['rv_mod3', 'rv_div2big', 'rv_tup', 'rn_div3', 'rk_big', 'rk_tup', 'rk', 'rv_mixed', 'rv_zero', 'rv_nest', 'rv_np', 'rv_npf', 'rv_nan', 'rv_nan_fresh', 'rv_obj', 'cnt3', 'rv_dt64ns', 'rv_fset', 'rv_strhash'])
         inner = g.pipeline(St('rec'), Flags(deny=('time_split', 'progress')), rng.choice([0, 1, 1]), rng.choice([1, 2, 2, 3]))
         node = {'op': 'split', 'key': key, 'inner': inner}
         shape = rng.random()
